@@ -185,8 +185,13 @@ pub fn sfacts(recs: &[Rec]) -> SFacts {
         }
     }
     let _ = cur_poll_is_stream;
+    // deadlines as the peer meant them, where the request crossed a serializing hop
+    let mut meant: BTreeMap<u32, i128> = BTreeMap::new();
     for (i, r) in recs.iter().enumerate() {
         match r {
+            Rec::N("sent_deadline", v) => {
+                meant.insert(v[0] as u32, v[1]);
+            }
             Rec::T { side: 1, op: Op::Next, res: Res::Item, msg: Some(m), poll, .. } => match m {
                 Msg::Req { id, payload, deadline_ns, .. } => {
                     // classify against the instances already known with the same id
@@ -205,7 +210,7 @@ pub fn sfacts(recs: &[Rec]) -> SFacts {
                         Inst {
                             p: *payload,
                             id: *id,
-                            deadline_ns: *deadline_ns,
+                            deadline_ns: meant.get(payload).copied().unwrap_or(*deadline_ns),
                             handed: i,
                             handed_poll: *poll,
                             dup_of_tracked: surely,
@@ -1137,10 +1142,15 @@ fn c12(cfg: &SCfg, e: &Exec, f: &SFacts, vs: &mut Vec<Violation>, nt: &mut bool)
             }
             continue;
         }
+        // A request the application had given up (its handler future dropped) before the poll
+        // that read this one even started is not "really in flight" any more: the channel has
+        // had its cancellation queued since then (seeded change C12e read first and processed
+        // the cancellation afterwards, refusing a request with a free slot).
+        let poll_start = f.polls.iter().rev().find(|(ps, _, _)| *ps <= i.handed).map(|p| p.0).unwrap_or(0);
         let set = f
             .inst
             .values()
-            .filter(|o| o.p != i.p && tracked(f, o, i.handed).1)
+            .filter(|o| o.p != i.p && tracked(f, o, i.handed).1 && !o.app_dropped.map(|d| d < poll_start).unwrap_or(false))
             .count();
         let surely_set = f
             .inst
@@ -1242,6 +1252,7 @@ fn base(reqs: Vec<ReqCfg>, limit: Option<usize>, rb: usize, fl: Flavour, cap: us
         burst: false,
         reuse_after_end: false,
         dup_deadline_ms: 10_000,
+        via_serde: false,
     }
 }
 
@@ -1334,6 +1345,13 @@ pub fn configs(prop: SProp, tier: Tier) -> Vec<SCfg> {
                             let mut r = ReqCfg::simple(0, fin);
                             r.deadline_ms = *d0;
                             out.push(base(vec![r.clone()], limit, 1, *fl, *cap, alpha));
+                            // the same request arriving over a serializing hop (deadline sent
+                            // as the remaining time, zero when it has passed)
+                            if *d0 <= 50 && limit != Some(2) {
+                                let mut c = base(vec![r.clone(), ReqCfg::simple(1, true)], limit, 1, *fl, *cap, alpha);
+                                c.via_serde = true;
+                                out.push(c);
+                            }
                             let mut c = base(vec![r], limit, 1, *fl, *cap, alpha);
                             c.route = Route::Execute;
                             out.push(c);
@@ -1522,6 +1540,10 @@ pub fn configs(prop: SProp, tier: Tier) -> Vec<SCfg> {
                                 }
                                 let reqs: Vec<ReqCfg> = pol.iter().enumerate().map(|(i, f)| ReqCfg::simple(i as u64, *f)).collect();
                                 out.push(base(reqs.clone(), Some(l), rb, *fl, *cap, alpha));
+                                // the application may also give a request up (drop its handler)
+                                if (1..=2).contains(&l) && n <= 3 && rb == 1 && *cap == 1 {
+                                    out.push(base(reqs.clone(), Some(l), rb, *fl, *cap, alpha | S_DROPH));
+                                }
                                 if n <= 3 && rb == 1 {
                                     let mut c = base(reqs, Some(l), rb, *fl, *cap, alpha);
                                     c.route = Route::Execute;
